@@ -33,6 +33,13 @@ def nsi_calls(net, src, tgt):
                     "nsi_local_midmotif_clustering", "nsi_local_inmotif_clustering",
                     "nsi_local_outmotif_clustering"):
             calls.append((name + "(typical_weight=2)", lambda f=f: f(typical_weight=2.0)))
+        # link-weighted variants (n.s.i. strengths and weighted motif clusterings): attribute "k" of the case
+        if name in ("nsi_degree", "nsi_indegree", "nsi_outdegree", "nsi_bildegree",
+                    "nsi_local_cyclemotif_clustering", "nsi_local_midmotif_clustering",
+                    "nsi_local_inmotif_clustering", "nsi_local_outmotif_clustering") \
+                and "k" in net.graph.es.attributes():
+            calls.append((name + "(key)", lambda f=f: f(key="k")))
+            calls.append((name + "(key,typical_weight=2)", lambda f=f: f(key="k", typical_weight=2.0)))
         if name == "nsi_betweenness" and tgt:
             calls.append((name + "(sources,targets)", lambda f=f: f(sources=src, targets=tgt)))
         if name == "nsi_newman_betweenness":
@@ -114,6 +121,11 @@ def run_case(c):
     else:
         net0 = Network(adjacency=np.array(c["A"]), directed=bool(c["directed"]),
                        node_weights=np.array(c["w"], dtype=float) / den, silence_level=3)
+    # a link attribute fixed by the node numbers (asymmetric on directed networks); splitted_copy hands it on
+    n0 = net0.N
+    ii, jj = np.indices((n0, n0))
+    K = 1.0 + ((ii * jj + ii + jj) % 3) if not c["directed"] else 1.0 + ((ii + 2 * jj + ii * jj) % 3)
+    net0.set_link_attribute("k", K * np.asarray(net0.adjacency))
     rec = dict(c)
     rec["warm"] = int(warm)
     rec["obs0"] = observe(net0, src, tgt)
